@@ -117,7 +117,7 @@ def loopCode (q init body : List Instr) (f : Nat) : List Instr :=
 mutual
 def compile (c : Ctx) : Expr → List Instr
   | .int v => [if C.isUndef v then .pushU else .push v]
-  | .flt f => [.push (fltToVm f)]
+  | .flt w => [.push w]
   | .str s => [.push (encSS s)]
   | .filesize => [.filesize]
   | .ext n => [.extVal n]
@@ -190,18 +190,27 @@ end
 /-! ### side conditions of the correctness theorems (Thm/C04.lean, compile_correct…)
 
 `WF env c l e` collects, for `e` and every sub-expression (in every loop iteration), what the theorems assume:
- * static typing as the compiler sees it (`tyOf`) and values of the promised shape, no floats
-   (Lean's `Float` is opaque to proofs) and no `P% of` (computed in double precision, finding F44);
- * no integer value equal to the YR_UNDEFINED sentinel (finding F14);
+ * static typing as the compiler sees it (`tyOf`) and values of the promised shape;
+ * no integer value — and no double whose 64-bit pattern is — equal to the YR_UNDEFINED sentinel (finding F14);
  * quantifier expressions are defined (finding F42);
  * range bounds are 64-bit values and loops have fewer than 2^60 iterations. -/
 
-/-- the value has the shape its static type promises, and is not an integer equal to the sentinel -/
+/-- the four operators that also take doubles -/
+def isFltOp : ArOp → Bool
+  | .add | .sub | .mul | .div => true
+  | _ => false
+
+/-- the int→double promotion of a mixed operation does not produce the sentinel pattern (`(double) i` is never that NaN) -/
+def promoOk (fo : FloatOps) (ta tb : Ty) (va vb : Val) : Prop :=
+  (ta = .int → tb = .flt → ∀ i, va = .int i → fo.ofInt i ≠ C.UNDEF) ∧
+  (ta = .flt → tb = .int → ∀ i, vb = .int i → fo.ofInt i ≠ C.UNDEF)
+
+/-- the value has the shape its static type promises, and is not an integer / a double whose 64-bit pattern is the sentinel -/
 def ValOk : Ty → Val → Prop
   | .int, v => v = .undef ∨ ∃ i, v = .int i ∧ i ≠ C.UNDEF
   | .str, v => v = .undef ∨ ∃ s, v = .str s
   | .bool, v => v = .undef ∨ ∃ b, v = .bool b
-  | .flt, _ => False
+  | .flt, v => v = .undef ∨ ∃ w, v = .flt w ∧ w ≠ C.UNDEF
 
 def SRefOk (c : Ctx) (l : LEnv) : SRef → Prop
   | .id _ => True
@@ -214,12 +223,12 @@ def EnvOk (env : Env) : Prop := ∀ b ∈ env.blocks, b.1 + b.2.length ≤ 92233
 mutual
 def WF (env : Env) (c : Ctx) : LEnv → Expr → Prop
   | _, .int v => v ≠ C.UNDEF
-  | _, .flt _ => False
+  | _, .flt w => w ≠ C.UNDEF
   | _, .str _ => True
   | _, .filesize => env.filesize ≠ C.UNDEF
   | _, .ext n => ValOk (c.extTy n) (lookupExt env n)
   | l, .var k => c.vars.getD k .bool ≠ .bool ∧ ValOk (c.vars.getD k .int) (l.vars.getD k .undef)
-  | _, .undefOf t => t ≠ .f
+  | _, .undefOf _ => True
   | l, .count s => SRefOk c l s
   | l, .countIn s lo hi =>
       SRefOk c l s ∧ WF env c l lo ∧ WF env c l hi ∧ tyOf c lo = .int ∧ tyOf c hi = .int
@@ -228,10 +237,13 @@ def WF (env : Env) (c : Ctx) : LEnv → Expr → Prop
   | l, .read k off =>
       WF env c l off ∧ tyOf c off = .int ∧ ValOk .int (eval env l (.read k off)) ∧
       (∀ a, eval env l off = .int a → C.inRange a)
-  | l, .neg e => WF env c l e ∧ tyOf c e = .int ∧ ValOk .int (eval env l (.neg e))
+  | l, .neg e => WF env c l e ∧ (tyOf c e = .int ∨ tyOf c e = .flt) ∧ ValOk (tyOf c e) (eval env l (.neg e))
   | l, .bnot e => WF env c l e ∧ tyOf c e = .int ∧ ValOk .int (eval env l (.bnot e))
   | l, .arith op a b =>
-      WF env c l a ∧ WF env c l b ∧ tyOf c a = .int ∧ tyOf c b = .int ∧ ValOk .int (eval env l (.arith op a b))
+      -- `+ - * \` take integers and doubles in any mix; `%` and the bitwise operators integers only (the compiler rejects the rest)
+      WF env c l a ∧ WF env c l b ∧ (tyOf c a = .int ∨ (isFltOp op = true ∧ tyOf c a = .flt)) ∧
+      (tyOf c b = .int ∨ (isFltOp op = true ∧ tyOf c b = .flt)) ∧ ValOk (tyOf c (.arith op a b)) (eval env l (.arith op a b)) ∧
+      promoOk env.fops (tyOf c a) (tyOf c b) (eval env l a) (eval env l b)
   | _, .tt => True
   | _, .ff => True
   | l, .found s => SRefOk c l s
@@ -240,7 +252,8 @@ def WF (env : Env) (c : Ctx) : LEnv → Expr → Prop
       SRefOk c l s ∧ WF env c l lo ∧ WF env c l hi ∧ tyOf c lo = .int ∧ tyOf c hi = .int
   | l, .cmp _ a b =>
       WF env c l a ∧ WF env c l b ∧
-      ((tyOf c a = .int ∧ tyOf c b = .int) ∨ (tyOf c a = .str ∧ tyOf c b = .str))
+      (((tyOf c a = .int ∨ tyOf c a = .flt) ∧ (tyOf c b = .int ∨ tyOf c b = .flt)) ∨ (tyOf c a = .str ∧ tyOf c b = .str)) ∧
+      promoOk env.fops (tyOf c a) (tyOf c b) (eval env l a) (eval env l b)
   | l, .strop _ a b => WF env c l a ∧ WF env c l b ∧ tyOf c a = .str ∧ tyOf c b = .str
   | l, .matches a _ _ => WF env c l a ∧ tyOf c a = .str
   | l, .not e => WF env c l e
@@ -334,12 +347,13 @@ def modelRules (blocks : List (Nat × Bytes)) (filesize : Int) (ext : List (Stri
     v :: modelRules blocks filesize ext rs (acc ++ [v.getD false])
 
 /-- with rules switched off (OP_INIT_RULE skips a disabled rule: it does not match) -/
-def modelRulesD (blocks : List (Nat × Bytes)) (filesize : Int) (ext : List (String × Val)) (disabled : List Nat) :
+def modelRulesD (blocks : List (Nat × Bytes)) (filesize : Int) (ext : List (String × Val)) (disabled : List Nat)
+    (fops : FloatOps) :
     List Rule → List Bool → List (Option Bool)
   | [], _ => []
   | r :: rs, acc =>
     let v := if disabled.contains acc.length then some false
-             else modelVerdict { strs := r.strs, blocks, filesize, ext, rules := acc, disabled } r.cond
-    v :: modelRulesD blocks filesize ext disabled rs (acc ++ [v.getD false])
+             else modelVerdict { strs := r.strs, blocks, filesize, ext, rules := acc, disabled, fops } r.cond
+    v :: modelRulesD blocks filesize ext disabled fops rs (acc ++ [v.getD false])
 
 end YaraModel.CondCompile
